@@ -790,7 +790,72 @@ def c19(ctx):
     ctx.assumptions += ["no symbolic links inside the cache directories", "POSIX path semantics (the Windows prefix / backslash cases are not run)"]
 
 
+def show_native(ty, v):
+    if not v:
+        return "-"
+    if ty in ("i32", "isize", "usize"):
+        return uncps(v["dec"])
+    if ty == "bool":
+        return str(v["b"]).lower()
+    if ty == "str":
+        return repr(uncps(v["s"]))
+    return "f64(%s%s bits=%s)" % ("-" if v["neg"] and v["cls"] != "finite" else "", uncps(v["dec"])[:40] if v["cls"] == "finite" else v["cls"], "".join("%04x" % x for x in v["bits"]))
+
+
+def c20(ctx):
+    binary = build()
+    # (1) the digit-string arithmetic of the specification agrees with TLC's integers, orders totally, nests the facets
+    mc = Bg(lambda: model_check(ctx, "MC_Native", workers=4, timeout=900))
+    # (2) the universe of literals, printed by TLC
+    out = tlc(ctx, "Gen_Native", workers=1, timeout=600)
+    tlc_must_be_clean(out, "Gen_Native")
+    rows = [json.loads(json.loads(l.strip())) for l in out.splitlines() if l.strip().startswith('"{')]
+    if len(rows) < 2500:
+        raise ToolError("Gen_Native printed only %d literals" % len(rows))
+    genf = os.path.join(ctx.gen, "native.ndjson")
+    with open(genf, "w") as f:
+        for x in rows:
+            f.write(json.dumps(x) + "\n")
+    ctx.exhaustive = True
+    tr = os.path.join(ctx.traces, "native.ndjson")
+    n = 300 if ctx.quick() else 6000
+    sv(binary, ["native", "--gen", genf, "--seed", ctx.seed, "--n", n, "--out", tr], ctx=ctx, timeout=3000)
+    trace = read_trace(tr)
+    mism = trace_check(ctx, "Trace_Native", tr, timeout=6000)
+    bad = set()
+    for line, fields in mism:
+        e = trace[line - 1]
+        bad.add(line)
+        code, idx = fields[0], int(fields[1])
+        if e["ev"] == "Native":
+            via = e["vias"][idx - 1] if idx else None
+            detail = "%s: %s value %s is the term %s" % (code, e["ty"], show_native(e["ty"], e["val"]), show_term(e["term"]))
+            if via:
+                detail += "; via %s -> %s %s %s" % (via["via"], via["out"]["k"], show_native(e["ty"], via["out"]["val"]), via["out"]["msg"][:120])
+            key = "%s/%s%s" % (code, e["ty"], "/" + via["via"] if via else "")
+        elif e["ev"] == "TryFrom":
+            detail = "%s: %s::try_from_term(%s) -> %s %s %s" % (code, e["ty"], show_term(e["term"]), e["out"]["k"], show_native(e["ty"], e["out"]["val"]), e["out"]["msg"][:100])
+            dt = uncps(e["term"].get("dt", [])) if e["term"].get("k") == "lit" else e["term"].get("k")
+            key = "%s/%s/%s" % (code, e["ty"], dt.split("#")[-1] if dt else "lang")
+        else:
+            detail = "%s: %s" % (code, json.dumps(e)[:300])
+            key = code
+        ctx.violations.append({"key": key, "detail": detail, "event": e, "trace": tr, "line": line})
+    ctx.traces_validated += len(trace) - len(bad)
+    for e in trace:
+        ctx.distinct.add(h([e["ev"], e["ty"], e.get("val"), e.get("term")]))
+    ctx.samples += [{"ty": e["ty"], "value": show_native(e["ty"], e["val"]), "term": show_term(e["term"])} for e in trace[3:len(trace):max(1, len(trace) // 6)] if e["ev"] == "Native"]
+    mc.join()
+    ctx.rule = ("Native.tla: a native value must be a plain literal of the datatype of its Rust type whose lexical form is in the lexical space of that datatype and denotes the value (exact digit-string arithmetic; "
+                "doubles by exact decimal expansion of the value and of its two neighbours), and must come back unchanged (bit pattern, NaN as NaN) directly, through SimpleTerm and after N-Triples / Turtle (streaming, pretty) / "
+                "TriG / RDF/XML / JSON-LD round trips; T::try_from_term on any term must not panic and may succeed only on a lexical form valid for its datatype (facets included), with the denoted value. "
+                "%d natives (extremes, zeros, subnormals, infinities, NaN, 17-digit values, %d seeded random per type, strings over escapes / controls / non-BMP) x 8 paths; the %d literals printed by TLC "
+                "(49 integer forms x 17 datatypes x 3 types, 57 double forms x 5 datatypes, 11 boolean forms x 3) + non-literal terms. distinct = (event kind, type, value, term)" % (sum(1 for e in trace if e["ev"] == "Native"), n, len(rows)))
+    ctx.assumptions += ["xsd:float results are judged by class and sign only (both roundings are faithful readings)", "64-bit isize / usize"]
+
+
 FAMILIES = {
+    "C20": c20,
     "C19": c19,
     "C12": c12,
     "C18": c18,
